@@ -166,10 +166,12 @@ class Interleaved(Sub):
             c = draw(qgen.st_store_and_filters(max_filters=3, max_events=14, history=True, regular_only=False))
             store = c["store"]
             # a newer version of a replaceable event with the same number of tags (an update that keeps the key count)
-            for _ in range(draw(st.integers(0, 2))):
+            for _ in range(draw(st.integers(0, 3))):
                 cand = [e for e in store if R.address(e) is not None]
                 if not cand:
-                    break
+                    e = draw(st.sampled_from([e for e in store if e["kind"] != 5] or store))
+                    e["kind"] = draw(st.sampled_from([0, 3, 10000, 30000]))
+                    cand = [e]
                 src = draw(st.sampled_from(cand))
                 tags = [[t[0], draw(st.sampled_from(qgen.QVALS))] if len(t) == 2 and t[0] != "d" and isinstance(t[1], str)
                         else list(t) for t in src["tags"]]
@@ -208,6 +210,7 @@ class Interleaved(Sub):
                 stored = await rig.dump()
                 if any(j not in stored for j in before):
                     removed = True
+                    labels.append("removal")
                 if (i + 1) in case["points"] or i + 1 == len(case["store"]):
                     for f in filters:
                         if sum(1 for e in stored.values() if R.may_match(e, f)) > R.effective_limit(f, MAX_LIMIT):
@@ -217,11 +220,83 @@ class Interleaved(Sub):
                         if err:
                             viol.append(V("%s-req-refused" % backend, "a well-formed REQ is served", error=err, filters=[f]))
                         n_must, n_non = check_answer(backend, stored, [f], got, viol, where="after write %d" % (i + 1))
+                        if n_must:
+                            labels.append("must-nonempty")
                         if n_must and removed and i + 1 < len(case["store"]):
                             nt = True
                     if viol:
                         break
         return Result(viol, nt, labels)
+
+
+class SqlConcurrent(Sub):
+    """SQL: a reader racing the writer - once an event is visible through one access path it is visible through all"""
+
+    name = "sql-concurrent"
+    examples = {"quick": 32, "thorough": 256}
+    shards = {"quick": 4, "thorough": 8}
+    rule = ("SQLite file database with real aiosqlite threads: a publisher adds 8..40 tagged events while 1..3 readers "
+            "poll {ids:[x]} and, as soon as x is returned, query the same event by tag, by author+kind and by kind+tag: "
+            "each later query must return it (a read that starts after another read saw the row sees the whole event); "
+            "non-trivial = a reader was polling for an event while its add_event was in flight (a poll came back empty and "
+            "a later one did not)")
+
+    def strategy(self, tier):
+        return st.tuples(st.integers(8, 40), st.integers(1, 3), st.integers(1, 4), st.integers(0, 10**6)).map(list)
+
+    def run_case(self, case):
+        return H.run(self._run, case, timeout=300)
+
+    async def _run(self, case):
+        import asyncio
+
+        n, readers, ntags, salt = case
+        viol = []
+        early = [0]
+        racing = [0]
+        async with H.Rig("sql", validators=[], file_db=True) as rig:
+            evs = [E.free("%064x" % (salt * 1000 + i + 1), qgen.PUBS[i % 3], 1, E.T0 + i,
+                          [["t", "r%d-%d" % (i, j)] for j in range(ntags)] + [["p", qgen.PUBS[4]]], "c%d" % i)
+                   for i in range(n)]
+            returned = set()
+
+            async def q(f):
+                out = []
+                async for e in rig.storage.run_single_query([dict(f, limit=50)]):
+                    out.append(e.id)
+                return out
+
+            async def publisher():
+                for ev in evs:
+                    await rig.storage.add_event(json.loads(json.dumps(ev)))
+                    returned.add(ev["id"])
+
+            async def reader(k):
+                for i, ev in enumerate(evs):
+                    if i % readers != k:
+                        continue
+                    for attempt in range(200000):
+                        if ev["id"] in await q({"ids": [ev["id"]]}):
+                            racing[0] += 1 if attempt else 0
+                            break
+                        await asyncio.sleep(0)
+                    else:
+                        raise H.HarnessError("event never became visible")
+                    if ev["id"] not in returned:
+                        early[0] += 1
+                    for f in ({"#t": [ev["tags"][-2][1]]}, {"authors": [ev["pubkey"]], "kinds": [1], "since": ev["created_at"]},
+                              {"kinds": [1], "#t": [ev["tags"][0][1]]}, {"#p": [qgen.PUBS[4]], "since": ev["created_at"]}):
+                        if ev["id"] not in await q(f):
+                            viol.append(V("sql-visible-by-id-not-by:" + "+".join(sorted(k.replace("#t", "#tag").replace("#p", "#tag")
+                                                                                      for k in f if k != "since")),
+                                          "a stored matching event is returned whichever plan serves the filter",
+                                          filter=f, event=ev["id"], before_add_returned=ev["id"] not in returned))
+                            return
+
+            await asyncio.gather(publisher(), *[reader(k) for k in range(readers)])
+        return Result(viol, racing[0] > 0, ["early-reads:%s" % ("0" if not early[0] else "1+"),
+                                            "racing-polls:%s" % ("0" if not racing[0] else "1+")],
+                      sample={"case": case, "early_reads": early[0], "events_polled_while_in_flight": racing[0]})
 
 
 def plan_classes(filters):
@@ -384,4 +459,4 @@ class SmallScope(Sub):
                       evals=len(filters), nt_hashes=nt)
 
 
-SUBCHECKS = [Complete(), ForcedIndex(), Interleaved(), SmallScope()]
+SUBCHECKS = [Complete(), ForcedIndex(), Interleaved(), SqlConcurrent(), SmallScope()]
